@@ -234,7 +234,8 @@ def one_dataset(obs, rng, conv, spec, workdir=None):
                                    'tag': [float(v) for v in model.fresh_ids((len(pts),))]})
             # the table's own index: 0..k-1 as read from a file, or what is left of the index of a larger table after
             # filtering / sorting it. Rows are requests "in request order" whatever their labels are.
-            index_style = (lambda seq: seq[int(rng.integers(len(seq)))])(['range', 'range', 'gappy', 'reversed', 'offset', 'shuffled'])
+            index_style = (lambda seq: seq[int(rng.integers(len(seq)))])(['range', 'range', 'gappy', 'reversed', 'offset', 'shuffled',
+                                                                           'range-slice', 'range-step'])
             if index_style == 'gappy':
                 df.index = numpy.cumsum(rng.integers(1, 4, size=len(pts))) + 3
             elif index_style == 'reversed':
@@ -243,6 +244,10 @@ def one_dataset(obs, rng, conv, spec, workdir=None):
                 df.index = numpy.arange(len(pts)) + 1
             elif index_style == 'shuffled':
                 df.index = rng.permutation(len(pts))
+            elif index_style == 'range-slice':
+                df.index = pandas.RangeIndex(3, 3 + len(pts))                 # big.iloc[3:3 + k]
+            elif index_style == 'range-step':
+                df.index = pandas.RangeIndex(1, 1 + 2 * len(pts), 2)          # big.iloc[1::2]
             obs.cls('dataframe-index:' + index_style)
             kwargs = {'missing_points': policy} if not (policy == 'error' and omit_default) else {}
             if pdim is not None:
